@@ -2,7 +2,6 @@ package oracle
 
 import (
 	"fmt"
-	"regexp"
 	"strings"
 
 	"github.com/intuitivelabs/sipsp"
@@ -39,7 +38,25 @@ func TakeSig(m *sipsp.PSIPMsg, cfg sut.Cfg) *SigObs {
 	return o
 }
 
-var sigRe = regexp.MustCompile(`^[0-9a-f]{1,9}I[0-9a-f]{6}F[0-9a-f]{4}V[0-9a-f]{4}$`)
+// wellFormedSig: hex digits with upper-case section letters, starting with a hex digit (the method),
+// no 'E' (the rendering's own error marker). The exact section letters and widths are the library's.
+func wellFormedSig(s string) bool {
+	if len(s) < 2 || !((s[0] >= '0' && s[0] <= '9') || (s[0] >= 'a' && s[0] <= 'f')) {
+		return false
+	}
+	sections := 0
+	for i := 0; i < len(s); i++ {
+		c := s[i]
+		switch {
+		case (c >= '0' && c <= '9') || (c >= 'a' && c <= 'f'):
+		case c >= 'A' && c <= 'Z' && c != 'E':
+			sections++
+		default:
+			return false
+		}
+	}
+	return sections >= 1
+}
 
 // documented fingerprinted headers, in the documented id order
 var sigKinds = []string{"call-id", "contact", "cseq", "from", "max-forwards", "to", "via", "user-agent"}
@@ -139,7 +156,7 @@ func C19Group(obs []SigObs) (string, int) {
 		if o.Sig.HdrSigLen < 0 || o.Sig.HdrSigLen > 8 {
 			return fmt.Sprintf("HdrSigLen=%d", o.Sig.HdrSigLen), o.Conn
 		}
-		if o.Str != "" && !sigRe.MatchString(o.Str) {
+		if o.Str != "" && !wellFormedSig(o.Str) {
 			return fmt.Sprintf("signature text %q is not well formed", o.Str), o.Conn
 		}
 		if o.Str == "" {
